@@ -1302,6 +1302,9 @@ func (s repStmt) plain() bool {
 // []int{1} from []any{1}) and are repaired by fixes/nested-drops-resolved.patch: values.ToLiquid resolves a drop
 // that yields a drop, values.ResolveDrops resolves the drops at every depth before every fmt.Sprint, uniq compares
 // arrays and maps by what they hold. Every row of the family MUST AGREE now; there is no KNOWN-FINDING any more.
+// Seven rows (sort-key-*, sort-natural-key-name-holds-drop and two controls) are the deviations of sort by a key that
+// fixes/sort-key-drops.patch repaired: the entry under the key goes through ToLiquid before the nil test, and the name of
+// the key is fmt.Sprint(values.ResolveDrops(key)).
 //
 // A row is (name, template, variant bindings). ORACLE: the variant renders exactly what its generic twin renders,
 // where the twin is made from the variant by genericTwin: the drop wrappers removed and every slice, array and map
@@ -1535,6 +1538,17 @@ func nestedRows() []nestedRow {
 		{"lookup-index-through-drops", "{{ a[0][0] }}|{{ a[0][1][0] }}|{{ a.first.last.first }}|{{ a[0][0] | plus: 1 }}|{{ a[0][1] | size }}", b{"a": d(l{d(d(l{d(1), d(l{d(d(d(2)))})}))})}},
 		{"lookup-mixed-through-drops", "{{ m.a[0].b[1] }}|{{ m.a.first.b.last }}|{{ m.a[0].b | join: ',' }}|{% for x in m.a[0].b %}{{ x }};{% endfor %}", b{"m": m{"a": d(l{d(m{"b": d(l{d(1), d(d(2))})})})}}},
 		{"lookup-five-drops-in-a-row", "{{ a[0] }}|{{ a[1].k }}|{{ a | size }}", b{"a": l{d(d(d(d(d(1))))), d(d(d(d(m{"k": d(d(d(d("v"))))}))))}}},
+		// the two deviations that fixes/sort-key-drops.patch repaired: sort by a key tested the entry for nil before ToLiquid
+		// (a drop that yields nil was not sorted first), and sort / sort_natural named their key by fmt.Sprint of the raw
+		// argument (a key that is an array or a map holding a drop printed the drop's Go struct and named no entry)
+		{"sort-key-drop-nil-entry", `{{ a | sort: "k" | map: "n" | join }}`, b{"a": l{m{"k": 1, "n": "x"}, m{"k": d(nil), "n": "y"}, m{"k": d(0), "n": "z"}}}},
+		{"sort-key-drop-of-drop-nil-entry", `{{ a | sort: "k" | map: "n" | join }}`, b{"a": l{m{"k": d(2), "n": "x"}, d(m{"k": d(d(nil)), "n": "y"}), m{"k": 1, "n": "z"}}}},
+		{"sort-key-name-holds-drop", `{{ a | sort: k | map: "n" | join }}`, b{"a": l{m{"[1]": 2, "n": "x"}, m{"[1]": 1, "n": "y"}}, "k": l{d(1)}}},
+		{"sort-key-name-map-holds-drop", `{{ a | sort: k | map: "n" | join }}`, b{"a": l{m{"map[a:1]": 2, "n": "x"}, m{"map[a:1]": 1, "n": "y"}}, "k": m{"a": d(d(1))}}},
+		{"sort-natural-key-name-holds-drop", `{{ a | sort_natural: k | map: "n" | join }}`, b{"a": l{m{"[1]": "b", "n": "x"}, m{"[1]": "a", "n": "y"}}, "k": l{d(1)}}},
+		// controls (agree with and without the repair): drops as entries that are not nil, sort_natural by a key with a drop that yields nil
+		{"control-sort-key-drop-entries", `{{ a | sort: "k" | map: "n" | join }}`, b{"a": l{m{"k": d(2), "n": "x"}, m{"k": 1, "n": "y"}, d(m{"k": d(d(3)), "n": "z"})}}},
+		{"control-sort-natural-key-drop-entries", `{{ a | sort_natural: "k" | map: "n" | join }}`, b{"a": l{m{"k": "b", "n": "x"}, m{"k": d(nil), "n": "y"}, m{"k": d("A"), "n": "z"}}}},
 	}
 	for _, sh := range nestedArrayShapes() {
 		twin := genericTwin(sh.val).([]any)
